@@ -60,7 +60,16 @@ for (f, i, a, b, pat, rep) in cands:
         open(path, 'w').write('\n'.join(lines))
         if subprocess.run(['go', 'build', './...'], cwd=S, env=env, capture_output=True).returncode != 0:
             continue
-        if subprocess.run(['go', 'test', '-vet=off', '-count=1', './...'], cwd=S, env=env, capture_output=True).returncode != 0:
+        # a mutant may hang or allocate without bound: address-space limit, test timeout, and a hard timeout that
+        # kills the whole process group
+        try:
+            pr = subprocess.Popen(['sh', '-c', 'ulimit -v 8388608; exec go test -vet=off -count=1 -timeout 120s ./...'], cwd=S, env=env,
+                                  stdout=subprocess.DEVNULL, stderr=subprocess.DEVNULL, start_new_session=True)
+            rc = pr.wait(timeout=300)
+        except subprocess.TimeoutExpired:
+            os.killpg(pr.pid, 9)
+            continue
+        if rc != 0:
             continue  # killed by the existing suite: not interesting here
         done += 1
         killed = []
